@@ -193,6 +193,7 @@ func replayAll(o *Options, prog *load.Program, all []*harnessStats, findings []*
 					continue
 				}
 				hs.Validated++
+				r.Failed = filterIDs(hs.Spec, r.Failed)
 				if len(r.Failed) > 0 || r.Vacuous || len(r.Missing) > 0 {
 					hs.ValidMismatch = append(hs.ValidMismatch, fmt.Sprintf("%s: native run of a passing path: failed=%v vacuous=%v missing=%v panic=%q inputs=%v choices=%v", c.ID, r.Failed, r.Vacuous, r.Missing, tail(r.Panic, 200), c.Inputs, c.Choices))
 					continue
@@ -270,4 +271,24 @@ func replayFile(o *Options) (int, error) {
 	}
 	fmt.Println("counterexample does not reproduce")
 	return 0, nil
+}
+
+// filterIDs keeps the assertion ids that belong to the spec's property.
+func filterIDs(s *Spec, ids []string) []string {
+	if len(s.Asserts) == 0 {
+		return ids
+	}
+	var out []string
+	for _, id := range ids {
+		keep := id == "uncaught-panic" || id == "process-died"
+		for _, p := range s.Asserts {
+			if strings.HasPrefix(id, p) {
+				keep = true
+			}
+		}
+		if keep {
+			out = append(out, id)
+		}
+	}
+	return out
 }
